@@ -18,6 +18,13 @@
 (*                               same call, same answer - whatever was       *)
 (*                               called in between (no hidden module or      *)
 (*                               object state leaks into the result)         *)
+(* The trace STARTS with one event per function recorded in a fresh child    *)
+(* process (forked before the parent made any call): what the call answers   *)
+(* when nothing else happened in the process.  The parent's events for the   *)
+(* same key must reproduce it - a module-level memo poisoned by an earlier   *)
+(* call with other options is then visible although it is persistent.       *)
+(* (Cross-process events carry fingerprints rounded to 6 digits and live     *)
+(* under their own function ids; in-process events are bit-exact.)           *)
 (* Drivers record the patterns  A A  and  A B A  (B another function of the  *)
 (* same module) and TLC validates the whole trace; rejected lines are        *)
 (* reported with their line number.                                          *)
